@@ -1,6 +1,7 @@
 //! C05 replay: one remote import loaded through a real build with a scripted Loader that records the LoadOptions it is given.
 use std::cell::RefCell;
 use std::collections::HashMap;
+use std::str::FromStr;
 use std::sync::Arc;
 
 use deno_graph::analysis::*;
@@ -223,4 +224,46 @@ pub fn run_lock_op(op: &Value) -> Value {
     "written": written,
     "digest_of_the_module_bytes": if written { Some(entry.unwrap() == LoaderChecksum::r#gen(content.as_bytes())) } else { None },
   })
+}
+
+
+/// jsr metadata kernel replay: an https URL into the registry is imported; the version manifest is served (optionally carrying its own
+/// lockfileChecksum); the lockfile does or does not already hold a checksum for that package version. Reports what the lockfile holds for
+/// the package version afterwards.
+pub fn run_manifest_lock_op(op: &Value) -> Value {
+  let own = op["manifest_has_lockfile_checksum"].as_bool().unwrap();
+  let meta = format!(r#"{{"exports":{{".":"./mod.ts"}},"manifest":{{"/mod.ts":{{"size":0,"checksum":"sha256-{}"}}}}{}}}"#, "1".repeat(64),
+    if own { r#","lockfileChecksum":"own-checksum""# } else { "" });
+  let dep = DependencyDescriptor::Static(StaticDependencyDescriptor {
+    kind: StaticDependencyKind::Import, types_specifier: None, specifier: REG_X.to_string(), specifier_range: PositionRange::zeroed(),
+    is_side_effect: false, import_attributes: ImportAttributes::None });
+  struct A(ModuleInfo);
+  #[async_trait::async_trait(?Send)]
+  impl ModuleAnalyzer for A {
+    async fn analyze(&self, s: &ModuleSpecifier, _t: Arc<str>, _m: MediaType) -> Result<ModuleInfo, deno_error::JsErrorBox> {
+      Ok(if s.as_str() == "file:///root.ts" { self.0.clone() } else { ModuleInfo::default() })
+    }
+  }
+  let analyzer = A(ModuleInfo { dependencies: vec![dep], ..Default::default() });
+  let loader = ScriptedLoader { x: REG_X, version_meta: Some(meta.clone()), answers: vec!["Module".to_string()], calls: RefCell::new(vec![]), max_redirects: 10 };
+  let nv = deno_semver::package::PackageNv::from_str("@a/b@1.0.0").unwrap();
+  let mut locker = HashMapLocker::default();
+  let old = "0".repeat(64);
+  if op["lockfile_has_manifest_checksum"].as_bool().unwrap() {
+    locker.set_pkg_manifest_checksum(&nv, LoaderChecksum::new(old.clone()));
+  }
+  let mut graph = ModuleGraph::new(GraphKind::All);
+  futures::executor::block_on(graph.build(
+    vec![ModuleSpecifier::parse("file:///root.ts").unwrap()],
+    vec![],
+    &loader,
+    BuildOptions { module_analyzer: &analyzer, locker: Some(&mut locker), executor: &InlineExecutor, ..Default::default() },
+  ));
+  let entry = locker.pkg_manifests().get(&nv).map(|c| c.as_str().to_string());
+  let written = entry.as_ref().map(|e| *e != old).unwrap_or(false);
+  let value = if !written { Value::Null } else {
+    let e = entry.unwrap();
+    if e == "own-checksum" { json!("own") } else if e == LoaderChecksum::r#gen(meta.as_bytes()) { json!("digest") } else { json!("other") }
+  };
+  json!({"written": written, "value": value})
 }
